@@ -21,6 +21,8 @@ def plan(tier, seed):
         jobs.append({'site': site, 'kind': 'str', 'k': 2})
     for site in ('string_in_interp_text', 'string_in_interp_attr'):
         jobs.append({'site': site, 'kind': 'str', 'k': 1, 'label': 'string-in-interpolation'})
+    for site in ('text', 'attr_dq', 'content'):
+        jobs.append({'site': site, 'kind': 'str', 'k': 2, 'shared_cache': True})
     for site in OPTOUT_SITES:
         jobs.append({'site': site, 'kind': 'str', 'k': 1})
         jobs.append({'site': site, 'kind': 'str', 'k': 2})
@@ -33,7 +35,8 @@ def plan(tier, seed):
                vacuity=2, program_key='site',
                mutants=[{'name': 'no_gt_escape', 'cfg': {'site': 'text', 'kind': 'str', 'k': 1}},
                         {'name': 'no_quote_escape', 'cfg': {'site': 'attr_sq', 'kind': 'str', 'k': 1}},
-                        {'name': 'gate_narrow', 'cfg': {'site': 'content', 'kind': 'str', 'k': 1}}])
+                        {'name': 'gate_narrow', 'cfg': {'site': 'content', 'kind': 'str', 'k': 1}},
+                        {'name': 'digest_without_class', 'cfg': {'site': 'text', 'kind': 'str', 'k': 1, 'shared_cache': True}}])
     return dict(
         level='model_checking',
         functions=['chameleon.compiler:emit_func_convert_and_escape', 'chameleon.compiler:emit_func_convert',
@@ -49,7 +52,7 @@ def plan(tier, seed):
                 '__str__ / int and float subclasses with their own __str__ / bytes (decode hook returns the symbolic text) / int; dynamic content whose translation is the hostile text; the inserted text is k symbolic code '
                 'points, every code point 0..0x10FFFF, k <= %d (str) resp. %d (other kinds). Outside: longer values, '
                 'escaping of dictionary keys and of what a translation function returns for i18n:attributes, text-mode '
-                'templates (C20).' % (len(ESCAPED_SITES) + len(MSG_SITES) + 1, 3 if quick else 4, 2 if quick else 3)),
+                'templates (C20). Three sites are also compiled after a text-mode template of the same source through one on-disk module cache.' % (len(ESCAPED_SITES) + len(MSG_SITES) + 1, 3 if quick else 4, 2 if quick else 3)),
         assumptions=['structural oracle (independent reader): skeleton of the harmless render; region contains no raw '
                      '<, >, site quote, no & except as start of an entity the escaper emits; un-escaping gives str(value)',
                      'bytes: the value is a concrete bytes object and render() gets __decode=lambda b: <symbolic text> '
